@@ -52,6 +52,10 @@ def run(ctx: Context) -> None:
     product_decided = len(ctx.undecided) == before
     ctx.rule(r1_round_robin)
     ctx.rule(r1_calibrate_pairing)
+    # the sampler that is recorded for a batch (and how many rows are attributed to it) is the one the scheduler handed out (label rule of C02)
+    from ..calib import CalibrateView as _CV
+    from . import c02
+    ctx.rule(c02.r5_labels, _CV(ctx.prog))
     ctx.rule(r2_rl_bootstrap, product_decided)
     ctx.rule(r3_truth_table)
 
